@@ -36,6 +36,7 @@ type EngSpec struct {
 	Fine    bool
 	Points  int64
 	Collect bool // run the pool collectors as an extra thread
+	FinalFor int64 // length of the final drain after Unlock (default 5s)
 }
 
 // EngRun is everything observed in one execution.
@@ -160,7 +161,11 @@ func EngineScenario(spec *EngSpec, monitors []MonitorFactory, oracles []Oracle, 
 					send(sc, u)
 					vrt.Quiesce()
 				}
-				vrt.AdvanceTo(drain + 5*sec)
+				ff := spec.FinalFor
+				if ff == 0 {
+					ff = 5 * sec
+				}
+				vrt.AdvanceTo(drain + ff)
 			}
 			run.Final = node.Snapshot()
 			run.Events = append([]hapi.Event{}, node.Events()...)
